@@ -1,6 +1,6 @@
 From Coq Require Export Uint63.
 From UV Require Export Base.Common Model.Prng Model.Randomized.
-From UV Require Import Model.RandomizedCoins.
+From UV Require Import Model.RandomizedCoins Model.RandomizedId.
 From Coq Require Import QArith.
 Open Scope N_scope.
 
@@ -11,7 +11,10 @@ Open Scope N_scope.
      id.Weights nil -> DefaultWeights snapshot; 8 bytes = all 17 equal; else 17 float64 bit patterns
      in struct order, u_common.go:671), serverName, NextProtos, the prefix of SHAKE256(seed), the first
      8 bytes of the salted ("ALPS") stream, and the result the code returned, serialised by the
-     runner exactly as [enc_res] serialises the model's result (an injective prefix code).
+     runner exactly as [enc_res] serialises the model's result (an injective prefix code); plus the
+     32 seed bytes the runner put into the ONE *PRNGSeed it built from twice, and the bytes found in
+     that object after the two builds - the model's build hands the id back unchanged
+     (Model/RandomizedId.v [build]), so they must be equal.
    CTable / CConsts / CDefaults: drift of the snapshots (cipherSuites rows and
      defaultCipherSuitesTLS13, the Go constants in the order of [model_consts], DefaultWeights).
    CCoins: the sequence of id.Weights.X references in the source text of generateRandomizedSpec
@@ -21,7 +24,7 @@ Open Scope N_scope.
    CRemove / CRC4 / CShuffled: the helpers called directly. *)
 Inductive case :=
 | CGen (v : variant) (wlen : int) (ww : list int) (server : int * list int) (protos : list (int * list int))
-       (slen : int) (sw : list int) (salted : list int) (obs : list int)
+       (slen : int) (sw : list int) (salted : list int) (obs : list int) (seed seed_after : list int)
 | CTable (rows : list (int * bool)) (tls13 : list int)
 | CConsts (vals : list int)
 | CDefaults (ww : list int)
@@ -133,10 +136,12 @@ Definition eqn := list_eqb N.eqb.
 
 Definition check (c : case) : bool :=
   match c with
-  | CGen v wlen ww server protos slen sw salted obs =>
+  | CGen v wlen ww server protos slen sw salted obs seed seed_after =>
       match weights_of (pk (w2n wlen) ww) with
-      | Some w => eqn (enc_res (generate rnf fuel utls_table v w (pkp server) (map pkp protos)
-                                         (pk (w2n slen) sw) (pk 8 salted))) (ns obs)
+      | Some w =>
+          let id := {| id_client := v; id_seed := pk 32 seed; id_weights := w |} in
+          let '(r, id') := build rnf fuel utls_table id (pkp server) (map pkp protos) (pk (w2n slen) sw) (pk 8 salted) in
+          eqn (enc_res r) (ns obs) && eqn (id_seed id') (pk 32 seed_after)
       | None => false
       end
   | CTable rows tls13 =>
